@@ -3,7 +3,7 @@
 failing case of the first `violation` replay and store it under corpus/<prop>/mut_<id>.json, so that the case that exposed the
 change runs first on every later run (whatever the seed). Nothing else may use /repo meanwhile."""
 import json, os, re, subprocess, sys, glob
-KEY = {"C01": "cfg", "C02": "cfg", "C03": "cfg", "C05": "cfg", "C07": "cfg", "C08": "cfg", "C11": "cfg", "C16": "cfg", "C19": "cfg", "C12": "scenario", "C10": "case", "C06": "seed"}
+KEY = {"C01": "cfg", "C02": "cfg", "C03": "cfg", "C05": "cfg", "C07": "cfg", "C08": "cfg", "C11": "cfg", "C16": "cfg", "C19": "cfg", "C12": "scenario", "C10": "case", "C06": "seed", "C09": "case", "C13": "case13", "C20": "cfg", "C04": "cfg"}
 only = set(sys.argv[1:])
 for d in sorted(glob.glob("/verif/seeded/*/")):
     mid = os.path.basename(d.rstrip("/"))
@@ -17,7 +17,7 @@ for d in sorted(glob.glob("/verif/seeded/*/")):
     got = None
     for m in re.finditer(r"replay=(\S+)", r):
         doc = json.load(open(m.group(1)))
-        if doc.get("kind") != "violation": continue
+        if doc.get("kind") not in ("violation", "diff"): continue
         rp = doc["replay"]
         k = KEY[prop]
         if prop == "C06":
@@ -25,6 +25,15 @@ for d in sorted(glob.glob("/verif/seeded/*/")):
         elif prop == "C10":
             c = rp.get("case")
             if isinstance(c, dict) and all(x in c for x in ("cfg", "W", "nsteps", "seed")): got = {"case": {x: c[x] for x in ("cfg", "W", "nsteps", "seed")}}
+        elif prop == "C09":
+            c = rp.get("case")
+            if isinstance(c, dict) and "seed" in c: got = {"case": {"seed": c["seed"], "dynamic": c.get("dynamic", False), "family": c.get("family")}}
+        elif prop == "C13":
+            c = rp.get("case")
+            if isinstance(c, dict) and "seed" in c and "kind" in c:
+                got = {"kind": c["kind"], "seed": c["seed"], "allow": c.get("allow", True), "tune": c.get("tune", True), "predeclare": c.get("predeclare", False)}
+            elif "seed" in rp and "program" in rp:
+                got = {"kind": "discovery" if "allow" in rp else "container", "seed": rp["seed"], "allow": rp.get("allow", True), "tune": rp.get("tune", True), "predeclare": False}
         elif prop == "C12":
             if "scenario" in rp:
                 sc = dict(rp["scenario"]); sc.pop("dir", None); got = {"scenario": sc}
